@@ -117,6 +117,11 @@ func (c *Call) perNodeFn() func(*zsvc.Request, uint32) *zsvc.Request {
 				return nil
 			}
 		}
+		for _, s := range spec.Empty {
+			if s == si {
+				return &zsvc.Request{}
+			}
+		}
 		if spec.Distinct {
 			r := &zsvc.Request{Value: distinctVal(in.GetValue(), id)}
 			r.ProtoReflect().SetUnknown(in.ProtoReflect().GetUnknown())
@@ -171,10 +176,19 @@ func (w *World) newCall(m *Mgr, ti, oi int, op *Op) *Call {
 			if op.PerNode.Distinct {
 				val = distinctVal(c.ReqVal, nodeID(si))
 			}
+			for _, s := range op.PerNode.Empty {
+				if s == si {
+					val = emptyPayload
+				}
+			}
 		}
 		if !skip {
 			c.Targets = append(c.Targets, si)
-			c.Expect[si] = val + c.reqSuffix
+			if val == emptyPayload {
+				c.Expect[si] = emptyPayload
+			} else {
+				c.Expect[si] = val + c.reqSuffix
+			}
 		}
 	}
 	w.mu.Lock()
@@ -204,6 +218,10 @@ func (w *World) ctxEnded(c *Call, why string) {
 	}
 	w.mu.Unlock()
 }
+
+// emptyPayload marks a node whose per-node message is a valid all-default message: the handler
+// sees an empty value, so the delivery cannot be attributed to the call by its token.
+const emptyPayload = "\x00empty"
 
 // threadsOf counts the threads of manager mi.
 func (w *World) threadsOf(mi int) int {
@@ -303,6 +321,9 @@ func (w *World) doCall(m *Mgr, ti, oi int, op *Op) *Call {
 		simrt.Yield("op:pre-invoke")
 	}
 	w.mu.Lock()
+	if op.FreezeClock && w.phase == "main" {
+		w.freeze = c
+	}
 	c.InvokeSeq = w.nextSeq()
 	c.InvokeStep = w.step
 	w.events = append(w.events, Event{Seq: c.InvokeSeq, Step: w.step, Task: simrt.SelfName(), Kind: "invoke", Attr: fmt.Sprintf("tok=%d stub=%s mgr=%d targets=%v ctx=%s", c.Tok, c.Stub, m.Idx, c.Targets, op.Ctx)})
@@ -317,6 +338,14 @@ func (w *World) doCall(m *Mgr, ti, oi int, op *Op) *Call {
 		c.res = invokeStub(c.ctx, cfg, node, c, c.Req, opts)
 	}()
 	w.syncCtx(c)
+	if op.FreezeClock {
+		w.mu.Lock()
+		frozen := w.freeze == c
+		w.mu.Unlock()
+		if frozen {
+			w.rule("C06.no-send-waiting-needs-no-timer", true)
+		}
+	}
 	w.mu.Lock()
 	c.ReturnSeq = w.nextSeq()
 	c.ReturnStep = w.step
